@@ -37,6 +37,16 @@ impl crrl::RngCore for DetRng {
 impl crrl::CryptoRng for DetRng {}
 
 fn flip(v: &mut [u8], bit: usize) { v[bit / 8] ^= 1 << (bit % 8); }
+/// One alteration of the region [lo, hi) of an encoding: a single flipped bit (par < 2^31), or one whole
+/// field (offset, replacement) replaced by another well-formed value of the same kind (par >= 2^31).
+fn alter(e: &mut [u8], par: usize, lo: usize, hi: usize, fields: &[(usize, &[u8])]) {
+    if par & 0x8000_0000 != 0 && !fields.is_empty() {
+        let (off, rep) = fields[(par & 0xFFFF) % fields.len()];
+        if e[off..off + rep.len()] != rep[..] { e[off..off + rep.len()].copy_from_slice(rep); return; }
+    }
+    let b = 8 * lo + (par & 0x7FFF_FFFF) % (8 * (hi - lo));
+    flip(e, b);
+}
 
 // Header shared by the protocol / corrupt / wire cases (HDR bytes), followed by the message:
 //   [0] t = 2 + b % 5            [1] n = t + b % (7 - t)         [2] key selector (% 4)
@@ -73,6 +83,7 @@ fn rnd_header(r: &mut Rng) -> Vec<u8> {
         1 => { let f = FIELD_MARKS[r.below(FIELD_MARKS.len() as u64) as usize]; let b = (8 * f + r.below(8) as u32).wrapping_sub(8 * r.below(2) as u32); h[14..18].copy_from_slice(&b.to_le_bytes()); }
         _ => {}
     }
+    if r.below(2) == 0 { h[17] |= 0x80; } // replace a whole field instead of flipping a bit
     h
 }
 fn sp_header_corrupt() -> Vec<Vec<u8>> {
@@ -82,11 +93,11 @@ fn sp_header_corrupt() -> Vec<Vec<u8>> {
             let pars: Vec<u32> = match kind {
                 8 => (0..8).collect(),
                 9 => vec![0, 1, 2, 3],
-                _ => vec![0, 7, 8 * 32 - 1, 8 * 32, 8 * 57 - 1, 8 * 57, 8 * 64, 8 * 65 + 7, 8 * 97, 8 * 114 - 1],
+                _ => vec![0, 7, 8 * 32 - 1, 8 * 32, 8 * 57 - 1, 8 * 57, 8 * 64, 8 * 65 + 7, 8 * 97, 8 * 114 - 1, 0x8000_0000, 0x8000_0001, 0x8000_0002, 0x8001_0003, 0x8000_0004],
             };
             for p in pars {
-                for p2 in [0u8, 9] {
-                    if p2 == 9 && !matches!(kind, 3 | 4) { continue; }
+                for p2 in [0u8, 0x81] {
+                    if p2 == 0x81 && !matches!(kind, 3 | 4) { continue; }
                     let pb = p.to_le_bytes();
                     v.push(vec![t, nn, 1, 0x3F, 9, 8, 7, 6, 5, 4, 3, 2, if kind & 1 == 0 { 0x05 } else { 0x0D }, kind, pb[0], pb[1], pb[2], pb[3], p2]);
                 }
@@ -329,15 +340,23 @@ macro_rules! frost_suite { ($m:ident, $name:expr, $ns:expr, $ne:expr, $rfc8032:e
             let coor = Coordinator::new(r.t, sp.gpk).unwrap();
             let ctx = |what: &str| format!("{} (t={}, n={}, {} signers, victim {}, par {}, par2 {})", what, r.t, r.n, k, vs + 1, par, par2);
             let assemble_with = |zs: &[SignatureShare], list: &[Commitment], pks: &[SignerPublicKey]| coor.assemble_signature(zs, list, pks, &r.msg);
+            // well-formed replacement values: the group key of another split, identifier / secret / public point of another signer
+            let og = split(r.t, r.n, (inp[2] % 4 + 1) % 4).gpk.encode();
+            let o = (vs + 1 + (par >> 16 & 0xFF) % (r.n - 1)) % r.n; // another signer
+            let oshare = sp.shares[o].encode();
+            let (oid, osk) = (&oshare[..NS], &oshare[NS..2 * NS]);
+            let opk = sp.pks[o].encode();
+            let opt = &opk[NS..];
+            let oz = r.zs[(vi + 1) % k].encode();
             match kind {
                 0 => { // private key share: identifier or secret scalar altered
                     let mut e = sp.shares[vs].encode();
-                    flip(&mut e, par % (16 * NS));
+                    alter(&mut e, par, 0, 2 * NS, &[(0, oid), (NS, osk)]);
                     if let Some(s2) = SignerPrivateKeyShare::decode(&e) { chk(!s2.verify_split(&sp.vss), || ctx("altered share passes verify_split"))?; }
                 }
                 1 => { // private key share: group public key field altered -> its signature shares are worthless
                     let mut e = sp.shares[vs].encode();
-                    flip(&mut e, 16 * NS + par % (8 * NE));
+                    alter(&mut e, par, 2 * NS, 2 * NS + NE, &[(2 * NS, &og[..]), (2 * NS, opt)]);
                     if let Some(s2) = SignerPrivateKeyShare::decode(&e) {
                         if let Some(z) = s2.sign(r.nonces[r.who[vi]], r.comms[r.who[vi]], &r.msg, &r.list) {
                             chk(!sp.pks[vs].verify_signature_share(z, &r.list, sp.gpk, &r.msg), || ctx("signature share made with an altered group public key verifies"))?;
@@ -348,22 +367,23 @@ macro_rules! frost_suite { ($m:ident, $name:expr, $ns:expr, $ne:expr, $rfc8032:e
                 }
                 2 => { // VSS commitment altered
                     let mut e = VSSElement::encode_list(&sp.vss);
-                    let b = par % (8 * e.len());
-                    flip(&mut e, b);
+                    let el = NE * (par2 % r.t);
+                    let len = e.len();
+                    alter(&mut e, par, 0, len, &[(el, &og[..]), (el, opt)]);
                     if let Some(v2) = VSSElement::decode_list(&e) {
                         for i in [vs, (vs + 1) % r.n] { chk(!sp.shares[i].verify_split(&v2), || ctx("share passes verify_split against an altered VSS commitment"))?; }
                     }
                 }
                 3 | 4 => { // one commitment of the list altered (on the coordinator's side / on the way to a signer)
                     let mut e = Commitment::encode_list(&r.list);
-                    let b = 8 * Commitment::ENC_LEN * vi + par % (8 * Commitment::ENC_LEN);
-                    flip(&mut e, b);
+                    let off = Commitment::ENC_LEN * vi;
+                    alter(&mut e, par, off, off + Commitment::ENC_LEN, &[(off + NS, &og[..]), (off + NS + NE, &og[..]), (off, oid), (off + NS, opt), (off + NS + NE, opt)]);
                     if let Some(l2) = Commitment::decode_list(&e) {
                         if kind == 3 {
                             for j in 0..k { chk(!sp.pks[r.parts[r.who[j]]].verify_signature_share(r.zs[j], &l2, sp.gpk, &r.msg), || ctx("signature share verifies against an altered commitment list"))?; }
                             chk(assemble_with(&r.zs, &l2, &sp.pks).is_none(), || ctx("assemble_signature succeeds with an altered commitment list"))?;
                         } else {
-                            let j = (par2 / 8) % k;
+                            let j = if par2 & 0x80 != 0 { vi } else { (par2 / 8) % k };
                             let w = r.who[j];
                             let z = sp.shares[r.parts[w]].sign(r.nonces[w], r.comms[w], &r.msg, &l2);
                             if j == vi { chk(z.is_none(), || ctx("signer accepts a list in which its own commitment was altered"))?; }
@@ -377,7 +397,7 @@ macro_rules! frost_suite { ($m:ident, $name:expr, $ns:expr, $ne:expr, $rfc8032:e
                 }
                 5 => { // signature share altered
                     let mut e = r.zs[vi].encode();
-                    { let b = par % (8 * e.len()); flip(&mut e, b); }
+                    alter(&mut e, par, 0, 2 * NS, &[(NS, &oz[NS..]), (0, &oz[..NS]), (NS, osk)]);
                     if let Some(z2) = SignatureShare::decode(&e) {
                         chk(!sp.pks[vs].verify_signature_share(z2, &r.list, sp.gpk, &r.msg), || ctx("altered signature share verifies"))?;
                         let mut zs = r.zs.clone(); zs[vi] = z2;
@@ -386,7 +406,7 @@ macro_rules! frost_suite { ($m:ident, $name:expr, $ns:expr, $ne:expr, $rfc8032:e
                 }
                 6 => { // aggregate signature altered
                     let mut e = r.sig.encode();
-                    { let b = par % (8 * e.len()); flip(&mut e, b); }
+                    alter(&mut e, par, 0, NE + NS, &[(0, &og[..]), (NE, &oz[NS..]), (0, opt)]);
                     if let Some(s2) = Signature::decode(&e) { chk(!sp.gpk.verify(s2, &r.msg), || ctx("altered signature verifies"))?; }
                     chk(!sp.gpk.verify_esig(&e, &r.msg), || ctx("altered signature passes verify_esig"))?;
                     let rfc: Option<fn(&[u8], &[u8], &[u8]) -> Option<bool>> = $rfc8032;
@@ -395,7 +415,8 @@ macro_rules! frost_suite { ($m:ident, $name:expr, $ns:expr, $ne:expr, $rfc8032:e
                 7 => { // nonce altered (hiding / binding part; the identifier must match by contract)
                     let w = r.who[vi];
                     let mut e = r.nonces[w].encode();
-                    flip(&mut e, 8 * NS + par % (16 * NS));
+                    let on = r.nonces[r.who[(vi + 1) % k]].encode();
+                    alter(&mut e, par, NS, 3 * NS, &[(NS, &on[NS..2 * NS]), (2 * NS, &on[2 * NS..]), (NS, &on[2 * NS..])]);
                     if let Some(n2) = Nonce::decode(&e) {
                         if let Some(z) = sp.shares[vs].sign(n2, r.comms[w], &r.msg, &r.list) {
                             chk(!sp.pks[vs].verify_signature_share(z, &r.list, sp.gpk, &r.msg), || ctx("share computed with an altered nonce verifies"))?;
@@ -451,7 +472,7 @@ macro_rules! frost_suite { ($m:ident, $name:expr, $ns:expr, $ne:expr, $rfc8032:e
                 }
                 10 => { // signer public key altered
                     let mut e = sp.pks[vs].encode();
-                    { let b = par % (8 * e.len()); flip(&mut e, b); }
+                    alter(&mut e, par, 0, NS + NE, &[(NS, opt), (0, oid), (NS, &og[..])]);
                     if let Some(p2) = SignerPublicKey::decode(&e) {
                         chk(!p2.verify_signature_share(r.zs[vi], &r.list, sp.gpk, &r.msg), || ctx("signature share verifies under an altered signer public key"))?;
                         let mut pks = sp.pks.clone(); pks[vs] = p2;
@@ -460,7 +481,7 @@ macro_rules! frost_suite { ($m:ident, $name:expr, $ns:expr, $ne:expr, $rfc8032:e
                 }
                 _ => { // group public key altered
                     let mut e = sp.gpk.encode();
-                    { let b = par % (8 * e.len()); flip(&mut e, b); }
+                    alter(&mut e, par, 0, NE, &[(0, &og[..]), (0, opt)]);
                     if let Some(g2) = GroupPublicKey::decode(&e) {
                         chk(!g2.verify(r.sig, &r.msg), || ctx("signature verifies under an altered group public key"))?;
                         chk(!sp.pks[vs].verify_signature_share(r.zs[vi], &r.list, g2, &r.msg), || ctx("signature share verifies with an altered group public key"))?;
